@@ -416,3 +416,35 @@ func (p *Program) FieldDeep(rel, typ string, path ...string) *types.Var {
 	}
 	return f
 }
+
+// MethodOfExternal resolves method `name` of the (possibly unexported) named type `typ` in a dependency package.
+func (p *Program) MethodOfExternal(pkgPath, typ, name string) *types.Func {
+	var found *types.Func
+	seen := map[*types.Package]bool{}
+	var visit func(pk *types.Package)
+	visit = func(pk *types.Package) {
+		if pk == nil || seen[pk] || found != nil {
+			return
+		}
+		seen[pk] = true
+		if pk.Path() == pkgPath {
+			if tn, ok := pk.Scope().Lookup(typ).(*types.TypeName); ok {
+				if n, ok := tn.Type().(*types.Named); ok {
+					for i := 0; i < n.NumMethods(); i++ {
+						if n.Method(i).Name() == name {
+							found = n.Method(i)
+						}
+					}
+				}
+			}
+			return
+		}
+		for _, imp := range pk.Imports() {
+			visit(imp)
+		}
+	}
+	for _, pk := range p.Pkgs {
+		visit(pk.Types)
+	}
+	return found
+}
